@@ -318,6 +318,82 @@ theorem Frontier.init (tms : List Timing) (P : Int) (start : DT) (stop : Option 
     simp only [] at h2
     omega
 
+/-- (as `C07.retired_only_when_past`) the rescheduling step sets the retirement flag exactly when the
+    new due time exceeds stop -/
+theorem C07_retired_aux (j : Job) (ref : DT) (hm : j.markDelete = false) (ha : 0 < j.attempts) :
+    (j.calcNext ref).markDelete = Job.pastStop (j.calcNext ref).stop (j.calcNext ref).due := by
+  have hd : (j.calcNext ref).due = (j.calcNext ref).pendingTimer.next := by
+    have : (j.calcNext ref).attempts = j.attempts := rfl
+    unfold Job.due
+    rw [this]
+    have : (j.attempts == 0) = false := by simp; omega
+    simp [this]
+  rw [hd]
+  simp [Job.calcNext, hm, Job.pendingTimer]
+
+/-- the due instant of a frontier job is the stored instant of its pending timer, which is the least
+    stored instant -/
+theorem Frontier.due_min (j : Job) (tms : List Timing) (P start : Int) (cs : List Int)
+    (hF : Frontier j tms P start cs) :
+    (∃ t ∈ j.timers, j.due = t.next) ∧ ∀ t ∈ j.timers, j.due.inst ≤ t.next.inst := by
+  have hlen := argmin_lt_length (fun (t : Timer) => t.next.inst) j.timers hF.ne
+  rw [← hF.pending] at hlen
+  have hdue : j.due = j.timers[j.pending].next := by
+    simp [Job.due, Job.pendingTimer, hF.delay, List.getD_eq_getElem?_getD, List.getElem?_eq_getElem hlen]
+  refine ⟨⟨_, List.getElem_mem hlen, hdue⟩, ?_⟩
+  intro t ht
+  have := argmin_le (fun (t : Timer) => t.next.inst) j.timers default t ht
+  rw [← hF.pending] at this
+  rw [hdue]
+  simpa [List.getD_eq_getElem?_getD, List.getElem?_eq_getElem hlen] using this
+
+/-- **the successor of a consumed due instant is the Spec's `unionNext`**: after one invocation the
+    job is due at the least occurrence of ANY of its listed times strictly after the instant it just
+    consumed - the closed form the driver evaluates (`enum`, `nextpast`) is what the model does -/
+theorem C09.successor_is_union_next (j : Job) (tms : List Timing) (P start : Int) (cs : List Int)
+    (hF : Frontier j tms P start cs) (hd : (tms.map utcPhase).Nodup)
+    (hv : ∀ tm ∈ tms, tm.valid ∧ tm.isCyclic = false) (hne : tms ≠ []) (ref : DT) (r : Bool) :
+    (j.run ref r).due.inst = unionNext tms j.due.inst := by
+  have hd' : tms.Pairwise (fun a b => utcPhase a ≠ utcPhase b) := List.pairwise_map.mp hd
+  have hF' := Frontier.step j tms P start cs hF hd' ref r
+  obtain ⟨⟨t0, ht0, hdue0⟩, _⟩ := Frontier.due_min j tms P start cs hF
+  obtain ⟨⟨t1, ht1, hdue1⟩, hmin1⟩ := Frontier.due_min (j.run ref r) tms P start _ hF'
+  have hstart : start < j.due.inst := by rw [hdue0]; exact (hF.wf t0 ht0).2.2.2.2
+  apply isLeast_eq (UnionOcc tms) j.due.inst _ _ _ (unionNext_least tms hne hv j.due.inst)
+  refine ⟨hF'.below _ (by simp), ?_, ?_⟩
+  · -- the new due instant is an occurrence of one of the listed times
+    refine ⟨t1.timing, ?_, ?_⟩
+    · rw [← hF'.timings]; exact List.mem_map_of_mem ht1
+    · rw [hdue1]; exact (hF'.wf t1 ht1).2.2.2.1
+  · -- and nothing of the union lies strictly between the consumed instant and it
+    intro v hv1 ⟨tm, htm, ho⟩
+    apply Classical.byContradiction
+    intro hlt
+    have hlt' : v < (j.run ref r).due.inst := by omega
+    rw [← hF'.timings] at htm
+    obtain ⟨t, ht, rfl⟩ := List.mem_map.mp htm
+    have hvt : v < t.next.inst := Int.lt_of_lt_of_le hlt' (hmin1 t ht)
+    have hmem := hF'.done t ht v ho (by omega) hvt
+    rcases List.mem_append.mp hmem with h | h
+    · have := hF.below v h; omega
+    · simp at h; omega
+
+/-- **a stop ends the enumeration only past the stop**: the run of a (not yet retired) batched job
+    sets the retirement flag exactly when the next occurrence of the union after the instant it
+    consumed lies past the stop - never while an occurrence of any listed time is still within the
+    window (the Spec clause `nextpast` evaluated on the implementation) -/
+theorem C09.stop_retires_iff_next_occurrence_past (j : Job) (tms : List Timing) (P start : Int) (cs : List Int)
+    (hF : Frontier j tms P start cs) (hd : (tms.map utcPhase).Nodup)
+    (hv : ∀ tm ∈ tms, tm.valid ∧ tm.isCyclic = false) (hne : tms ≠ []) (ref : DT) (r : Bool)
+    (hm : j.markDelete = false) (st : DT) (hs : j.stop = some st) :
+    (j.run ref r).markDelete = true ↔ st.inst < unionNext tms j.due.inst := by
+  rw [← C09.successor_is_union_next j tms P start cs hF hd hv hne ref r]
+  have h := C07_retired_aux (j.exec1 r) ref (by simpa [Job.exec1] using hm) (by simp [Job.exec1])
+  have hrun : j.run ref r = (j.exec1 r).calcNext ref := rfl
+  rw [hrun, h]
+  have hstop : ((j.exec1 r).calcNext ref).stop = some st := by simpa [Job.calcNext, Job.exec1] using hs
+  simp [Job.pastStop, hstop]
+
 /-- **the union schedule**: a job given a list of pairwise different recurring times, polled at
     arbitrary instants, consumes due instants that (a) are strictly increasing, (b) are each an
     occurrence of one of the listed times after the start, and (c) omit nothing: every occurrence of
